@@ -31,6 +31,34 @@ NOTES = {  # what a seed taught (checks strengthened because it was first missed
     "C03-6": "a change to reduce_whitespace (early return before recursing into a nested xml:space=default): C07's subject",
     "C02-6": "first only a broken tie: namespace names containing '&' added to the generators",
     "C06-4": "first only a broken tie: direct document-order search on nested same-name elements and CSS child/descendant combinators added",
+    "C07-5": "first missed: histories (loaded with the option, edited through the API, reduced by the method) added to the C07 check",
+    "C19-4": "first missed: text spread over several adjacent (API-made) text nodes added to the C19 generator",
+    "C19-5": "first missed: same generator extension as C19-4",
+    "C04-4": "first only a broken tie: operations that raise inside a locked region and are handled, then the release clause",
+    "C04-5": "first missed: blanked appended text nodes in front of a held chain member",
+    "C04-6": "first missed: indented and wrapped serializations observed before/after collections",
+    "C09-4": "first missed: illegal offers now also under the stock default filters; parentless comment/PI chains",
+    "C09-5": "first only a broken tie: negative item indexes",
+    "C09-6": "first missed: replace_with on parentless comment/PI targets",
+    "C10-4": "first missed: documents loaded with reduce_whitespace and edited before cloning",
+    "C10-5": "first missed: prefixed-namespace elements with plain and twin attributes",
+    "C10-6": "first missed: wide nodes (800 / 1200 children)",
+    "C12-4": "first missed: one ParserOptions object reused across loads while its attributes change",
+    "C13-4": "first missed: declaration clauses also on formatted serializations of roots and sub-trees",
+    "C15-5": "first only a broken tie: number literals in both operand orders on steps that must be created",
+    "C15-6": "first only a broken tie: cases under ambient filters; existing targets must be returned",
+    "C16-4": "first missed: termination probe in a child process with a watchdog; pinned STRING pattern",
+    "C16-6": "first missed: the same expression string under different namespace mappings, cached vs fresh",
+    "C17-4": "first missed: one side un-namespaced attribute, other side namespace bound to default and prefix",
+    "C18-6": "first missed: serialize, add root siblings through the node API, serialize again",
+    "C01-8": "first missed: add_preceding_siblings of element-like nodes on text after comment/PI under the stock filters",
+    "C05-7": "first only a broken tie: the direct search is now strict under every ambient filter for the unguarded routines",
+    "C09-9": "first only a broken tie: attached nodes of unbound trees offered to the root setter",
+    "C10-7": "first missed: empty strings behind comments/PIs before cloning (works on the unchanged code, so unclassified)",
+    "C10-9": "first only a broken tie: clones under several ambient filters; any exception is a failure",
+    "C12-8": "first only a broken tie: new roots carrying their own root-level comments/PIs",
+    "C16-7": "first only a broken tie: parsing under a lowered interpreter int-digit limit",
+    "C16-9": "first only a broken tie: literal-on-the-left expressions through fetch_or_create, cached vs fresh",
     "C03-1": "caught as a broken tie; generator bias for preserved nested children that fit the line requested",
 }
 rows = []
